@@ -20,7 +20,9 @@ FRAGMENT = {
  'design_ref': 'DESIGN.md section 6 (C16), section 8 row 13',
  'rule': 'one evaluation = one simulated run: 1-5 Teletext pages (Level 1 attributes incl. sizes/boxes/conceal/mosaics, X/26 enhancements, X/27/0, X/28/0, '
          'newsflash/subtitle/suppress-header/inhibit flags), 0-5 caption bursts (roll-up, pop-on, paint-on, text mode, erase, mid-row/special/extended codes), '
-         '1-3 exporter ops (export with its fault ops / region render / print) scheduled between the transmitted packets; non-trivial = at least one export compared over '
+         '1-3 exporter ops (export with its fault ops / region render / print) plus 0-2 text option sweeps (control 0/1/2 x format or charset x gfx_chr, every vector over all '
+         'four targets and the content clause; also after every export with the text module) scheduled between the transmitted packets; Teletext rows incl. headline rows '
+         'and words of mixed size (every size attribute, flash / conceal / box); non-trivial = at least one export compared over '
          'all four targets on a page with >= 20 non-blank cells and more than 5 task switches; distinct = distinct event-log hash',
  'fault_kinds': ['fault_write_short', 'fault_write_zero', 'fault_write_eintr', 'fault_write_eio', 'fault_write_enospc', 'fault_close_eintr', 'fault_close_eio',
                  'fault_open_eintr', 'fault_open_eacces', 'fault_cookie_short', 'fault_cookie_zero_eio', 'fault_cookie_zero_enospc', 'fault_fwrite_short',
@@ -35,5 +37,9 @@ FRAGMENT = {
                  'exp-vtx.c and exp-templ.c are not registered modules in this build (vbi_export_info_enum lists html, png, ppm, text, xpm) and are not exercised',
                  'DRCS pages are not transmitted: draw_drcs paths are not reached',
                  'for cells covered by a double width/height/size neighbour vbi_print_page_region may print the character or a blank (statement silent)',
+                 'text module with control=1/2: ECMA-48 control functions (CSI ... final byte, ESC intermediates final byte) are removed before the comparison; the right '
+                 'halves of double width / double size characters (VBI_OVER_TOP / VBI_OVER_BOTTOM) may be left out, printed as the character or as a blank (format.h: they '
+                 '"can be safely ignored when scanning the page"; statement silent); every other cell is demanded, with control=0 every cell',
+                 'the html module has no content clause in the statement: only the target-independence clauses are checked for it',
                  'write_fd treats a short write and EINTR as fatal: a reported failure is an accepted outcome (probe_short_write_or_eintr_fatal)']}
 }
